@@ -1,11 +1,162 @@
 (* C03 — TT-SVD (svd, svd_matrix, matrix_skeleton, full_matrix).  Only statements, each closed by [exact]. *)
-From Coq Require Import List Arith Lia PeanoNat ZArith.
-From TV Require Import Num.Ops Lin.Tab Lin.BigSum Lin.Mat TT.Chain Model.ActOne Model.Svd Model.SvdMatrix Proofs.SvdP.
+From Coq Require Import List Arith Lia PeanoNat ZArith Reals.
+From TV Require Import Num.Ops Lin.Tab Lin.BigSum Lin.Mat TT.Chain Model.ActOne Model.Svd Model.SvdMatrix
+  Proofs.SvdP Proofs.SvdP2 Proofs.SvdP3 Proofs.SvdP4 Proofs.SvdP5 Proofs.SvdP6 Proofs.SvdP7.
 Import ListNotations.
 
-(* svd_wf: for EVERY oracle in the np.linalg.svd slot (no contract needed), every shape ns <> [] and every data:
+(* ---- shape and ranks ----
+   svd_wf: for EVERY oracle in the np.linalg.svd slot (no contract needed), every shape ns <> [] and every data:
    mode sizes of the result = ns, boundary ranks 1, consecutive ranks match, every rank within 1..max(1, int r) *)
 Theorem C03_svd_wf : forall (T : Type) (K : ops T) svdo ns data e rcap, ns <> [] ->
   chain 1 (svd K svdo ns data e rcap) 1 /\ shape (svd K svdo ns data e rcap) = ns /\
   Forall (fun G => 1 <= cr2 G <= capn rcap) (svd K svdo ns data e rcap).
 Proof. exact @svd_wf. Qed.
+
+(* the rank rule: 1 <= q <= max(1, int r), q <= max(1, len) *)
+Theorem C03_rank_select_bounds : forall (T : Type) (K : ops T) x e2 rcap,
+  1 <= rank_select K x e2 rcap <= capn rcap /\ rank_select K x e2 rcap <= Nat.max 1 (length x).
+Proof. exact @rank_select_bounds. Qed.
+
+(* the rank rule at the reals: when the cap does not bind, the energy of the discarded entries is within budget *)
+Theorem C03_rank_select_tail : forall (x : list R) (e2 : R) rcap, (1 <= length x)%nat ->
+  Forall (fun v => (0 <= v)%R) x -> (0 <= e2)%R -> cap_free_at x e2 rcap ->
+  (tailx OR x (rank_select OR x e2 rcap) <= e2)%R.
+Proof. exact rank_select_tail. Qed.
+
+(* ... and the chosen size is the smallest one meeting the budget: every smaller size discards more than e2
+   (cap not binding; q = 1 is the floor max(1, .) and is exempt) *)
+Theorem C03_rank_select_minimal : forall (x : list R) (e2 : R) rcap q', Forall (fun v => (0 <= v)%R) x ->
+  cap_free_at x e2 rcap -> q' < rank_select OR x e2 rcap -> 1 < rank_select OR x e2 rcap ->
+  (e2 < tailx OR x q')%R.
+Proof. exact rank_select_minimal. Qed.
+
+(* ---- truncated matrix factorisation: the three give_to variants ----
+   same inner size q (rel = True: tails measured relative to s_0), shapes m x q and q x n, and the same product
+   U_q diag(s_q) V_q  (give_to = 'm' needs sqrt(x)*sqrt(x) = x on the retained singular values) *)
+Theorem C03_skeleton_variants : forall (T : Type) (K : ops T), rng K -> forall svdo k A e rcap rel g U s V,
+  svdo k A = (U, s, V) ->
+  let q := skel_rank K s e rcap rel in
+  let P := matrix_skeleton K svdo k A e rcap rel g in
+  q <= length s ->
+  (g = GiveM -> forall c, c < q -> omul K (osqrt K (nth c s (o0 K))) (osqrt K (nth c s (o0 K))) = nth c s (o0 K)) ->
+  mr (fst P) = mr U /\ mc (fst P) = q /\ mr (snd P) = q /\ mc (snd P) = mc V /\
+  forall i j, i < mr U -> j < mc V ->
+    mget K (mmul K (fst P) (snd P)) i j =
+    bsum K q (fun c => omul K (mget K U i c) (omul K (nth c s (o0 K)) (mget K V c j))).
+Proof. exact @skeleton_variants. Qed.
+
+(* one factorisation with give_to = 'r' under the SVD contract: left factor orthonormal, residual orthogonal to
+   it, squared Frobenius norm of the residual = energy of the discarded singular values *)
+Theorem C03_skeleton_residual : forall (T : Type) (K : ops T), rng K -> forall A U s V q,
+  svd_ok K A U s V -> 1 <= q <= length s ->
+  ocolsf K (mget K (mtakec K U q)) (mr A) q /\
+  (forall c j, c < q -> j < mc A -> bsum K (mr A) (fun i => omul K (mget K (mtakec K U q) i c) (resid K A U s V q i j)) = o0 K) /\
+  bsum K (mc A) (fun j => bsum K (mr A) (fun i => omul K (resid K A U s V q i j) (resid K A U s V q i j))) = tail K s q.
+Proof.
+  intros T K Rth A U s V q H1 H2. split; [exact (skel_G_orth K A U s V q H1 H2)|]. split.
+  - exact (skel_G_resid0 K Rth A U s V q H1 H2).
+  - exact (skel_resid_frob K Rth A U s V q H1 H2).
+Qed.
+
+(* ---- the sweep: error^2 = sum of the discarded tail energies (ANY commutative ring, any remainder) ---- *)
+Theorem C03_sweep_error_identity : forall (T : Type) (K : ops T), rng K -> forall svdo e rcap ns k0 Zm q,
+  ns <> [] -> Forall (fun n => 0 < n) ns -> 0 < q -> mr Zm = q -> mc Zm = prodn ns ->
+  calls_ok K svdo e rcap k0 Zm q ns ->
+  err2 K Zm q ns (svd_loop K svdo k0 Zm q ns e rcap) = tails K svdo e rcap k0 Zm q ns.
+Proof. exact @loop_err. Qed.
+
+(* an oracle meeting the contract on every non-empty matrix meets it on the calls of every run *)
+Theorem C03_calls_ok_all : forall (T : Type) (K : ops T) svdo e rcap,
+  (forall k A, 0 < mr A -> 0 < mc A -> let '(U, s, V) := svdo k A in svd_ok K A U s V) ->
+  forall ns k0 Zm q, Forall (fun n => 0 < n) ns -> 0 < q -> mr Zm = q -> mc Zm = prodn ns ->
+  calls_ok K svdo e rcap k0 Zm q ns.
+Proof. exact @calls_ok_all. Qed.
+
+(* ---- svd_error at the reals ----
+   squared form: sum over all multi-indices of (A[idx] - get (svd A) idx)^2 = sum of discarded tails <= (d-1) e^2 *)
+Theorem C03_svd_error_sq : forall svdo (e : R) rcap ns data, ns <> [] -> Forall (fun n => (0 < n)%nat) ns ->
+  calls_ok OR svdo e rcap 0 (mkmat 1 (prodn ns) (fun _ j => nth j data 0%R)) 1 ns ->
+  cap_free svdo e rcap 0 (mkmat 1 (prodn ns) (fun _ j => nth j data 0%R)) 1 ns ->
+  (msum OR ns (fun idx => (nth (cpos ns idx 0) data 0 - get OR (svd OR svdo ns data e rcap) idx) *
+                          (nth (cpos ns idx 0) data 0 - get OR (svd OR svdo ns data e rcap) idx))
+   = tails OR svdo e rcap 0 (mkmat 1 (prodn ns) (fun _ j => nth j data 0)) 1 ns /\
+   tails OR svdo e rcap 0 (mkmat 1 (prodn ns) (fun _ j => nth j data 0)) 1 ns <= INR (length ns - 1) * (e * e))%R.
+Proof. exact svd_error_sq. Qed.
+
+(* Frobenius error <= e sqrt(d-1): no hypothesis on the magnitude of the data *)
+Theorem C03_svd_error : forall svdo (e : R) rcap ns data, ns <> [] -> Forall (fun n => (0 < n)%nat) ns -> (0 <= e)%R ->
+  calls_ok OR svdo e rcap 0 (mkmat 1 (prodn ns) (fun _ j => nth j data 0%R)) 1 ns ->
+  cap_free svdo e rcap 0 (mkmat 1 (prodn ns) (fun _ j => nth j data 0%R)) 1 ns ->
+  (sqrt (msum OR ns (fun idx => (nth (cpos ns idx 0) data 0 - get OR (svd OR svdo ns data e rcap) idx) *
+                                (nth (cpos ns idx 0) data 0 - get OR (svd OR svdo ns data e rcap) idx)))
+   <= e * sqrt (INR (length ns - 1)))%R.
+Proof. exact svd_error. Qed.
+
+(* the same for every routine meeting the contract, with a cap that is at least the number of entries (default 1e12) *)
+Theorem C03_svd_error_contract : forall svdo (e : R) rcap ns data, ns <> [] -> Forall (fun n => (0 < n)%nat) ns ->
+  (0 <= e)%R ->
+  (forall k A, (0 < mr A)%nat -> (0 < mc A)%nat -> let '(U, s, V) := svdo k A in svd_ok OR A U s V) ->
+  (Z.of_nat (prodn ns) <= rcap)%Z ->
+  (sqrt (msum OR ns (fun idx => (nth (cpos ns idx 0) data 0 - get OR (svd OR svdo ns data e rcap) idx) *
+                                (nth (cpos ns idx 0) data 0 - get OR (svd OR svdo ns data e rcap) idx)))
+   <= e * sqrt (INR (length ns - 1)))%R.
+Proof. exact svd_error_contract. Qed.
+
+(* svd_exact: nothing of non-zero energy discarded => every entry reproduced exactly; e = 0 is one such case *)
+Theorem C03_svd_exact : forall svdo (e : R) rcap ns data, ns <> [] -> Forall (fun n => (0 < n)%nat) ns ->
+  calls_ok OR svdo e rcap 0 (mkmat 1 (prodn ns) (fun _ j => nth j data 0%R)) 1 ns ->
+  tails OR svdo e rcap 0 (mkmat 1 (prodn ns) (fun _ j => nth j data 0%R)) 1 ns = 0%R ->
+  forall idx, inb ns idx -> get OR (svd OR svdo ns data e rcap) idx = nth (cpos ns idx 0) data 0%R.
+Proof. exact svd_exact. Qed.
+Theorem C03_svd_exact_e0 : forall svdo (e : R) rcap ns k0 Zm q, e = 0%R ->
+  calls_ok OR svdo e rcap k0 Zm q ns -> cap_free svdo e rcap k0 Zm q ns -> tails OR svdo e rcap k0 Zm q ns = 0%R.
+Proof. exact tails_zero. Qed.
+
+(* ---- the matrix variant: index interleaving and its inverse, every q ---- *)
+Theorem C03_interleave_get : forall (T : Type) (K : ops T) q Y i j, i < 2 ^ q -> j < 2 ^ q ->
+  cpos (repeat 4 q) (modes_of true q i j) 0 < 4 ^ q /\
+  nth (cpos (repeat 4 q) (modes_of true q i j) 0) (interleaved K q Y) (o0 K) = mget K Y i j.
+Proof. exact @interleave_get. Qed.
+
+Theorem C03_full_matrix_get : forall (T : Type) (K : ops T) (Y : list (core T)) o, Y <> [] -> chain 1 Y 1 ->
+  Forall (fun G => cn G = 4) Y ->
+  exists M, full_matrix K Y o = Ok M /\ mr M = 2 ^ length Y /\ mc M = 2 ^ length Y /\
+    forall i j, i < 2 ^ length Y -> j < 2 ^ length Y -> mget K M i j = get K Y (modes_of o (length Y) i j).
+Proof. exact @full_matrix_get. Qed.
+
+(* full_matrix (order='F') after svd_matrix: entry (i, j) of the result is the entry of the produced tensor at the
+   multi-index where svd_matrix had stored Y[i, j]; the entrywise error is the TT-SVD error, re-indexed *)
+Theorem C03_interleave_inv : forall (T : Type) (K : ops T) svdo q Y e rcap, 1 <= q -> mr Y = 2 ^ q -> mc Y = 2 ^ q ->
+  exists Yt M, svd_matrix K svdo Y e rcap = Ok Yt /\ Yt = svd K svdo (repeat 4 q) (interleaved K q Y) e rcap /\
+    full_matrix K Yt true = Ok M /\ mr M = 2 ^ q /\ mc M = 2 ^ q /\
+    forall i j, i < 2 ^ q -> j < 2 ^ q ->
+      let ts := modes_of true q i j in
+      inb (repeat 4 q) ts /\ mget K M i j = get K Yt ts /\
+      nth (cpos (repeat 4 q) ts 0) (interleaved K q Y) (o0 K) = mget K Y i j.
+Proof. exact @interleave_inv. Qed.
+
+(* the error bound for the matrix variant, measured on the matrix that full_matrix returns: e sqrt(q-1) *)
+Theorem C03_svd_matrix_error : forall svdo (e : R) rcap q Y, 1 <= q -> mr Y = 2 ^ q -> mc Y = 2 ^ q -> (0 <= e)%R ->
+  calls_ok OR svdo e rcap 0 (mkmat 1 (prodn (repeat 4 q)) (fun _ j => nth j (interleaved OR q Y) 0%R)) 1 (repeat 4 q) ->
+  cap_free svdo e rcap 0 (mkmat 1 (prodn (repeat 4 q)) (fun _ j => nth j (interleaved OR q Y) 0%R)) 1 (repeat 4 q) ->
+  exists Yt M, svd_matrix OR svdo Y e rcap = Ok Yt /\ full_matrix OR Yt true = Ok M /\
+    mr M = 2 ^ q /\ mc M = 2 ^ q /\
+    (sqrt (bsum OR (2 ^ q) (fun i => bsum OR (2 ^ q) (fun j =>
+             (mget OR Y i j - mget OR M i j) * (mget OR Y i j - mget OR M i j))))
+     <= e * sqrt (INR (q - 1)))%R.
+Proof. exact svd_matrix_error. Qed.
+
+(* ---- non-vacuity ---- *)
+(* a concrete 2 x 2 run over R whose recorded factorisation meets the contract and whose cap does not bind *)
+Example C03_svd_error_hyps_example :
+  calls_ok OR ex_svdo (1/2)%R 10 0 (mkmat 1 (prodn [2; 2]%nat) (fun _ j => nth j ex_data 0%R)) 1 [2; 2]%nat /\
+  cap_free ex_svdo (1/2)%R 10 0 (mkmat 1 (prodn [2; 2]%nat) (fun _ j => nth j ex_data 0%R)) 1 [2; 2]%nat.
+Proof. exact svd_error_hyps_example. Qed.
+(* the index maps on concrete numbers: q = 2, entry (i, j) = (2, 1): t = (0 + 2*1, 1 + 2*0) = (2, 1), position 2*4+1 *)
+Example C03_interleave_example :
+  modes_of true 2 2 1 = [2; 1] /\ cpos (repeat 4 2) [2; 1] 0 = 9 /\ digits4 2 9 = [2; 1] /\
+  row_of [2; 1] = 2 /\ col_of [2; 1] = 1 /\
+  interleaved OZ 1 (mk_mat 2 2 [[10; 11]; [12; 13]]%Z) = [10; 12; 11; 13]%Z /\
+  rank_select OZ [9; 4; 1]%Z 5%Z 7%Z = 1 /\ rank_select OZ [9; 4; 1]%Z 4%Z 7%Z = 2 /\ rank_select OZ [9; 4; 1]%Z 100%Z 7%Z = 1 /\
+  rank_select OZ [9; 4; 1]%Z 0%Z 2%Z = 2.
+Proof. repeat split. Qed.
